@@ -2,6 +2,7 @@
    Property theorems only; proofs in proofs/PurityP.v (and RSP.v, ConcP.v). *)
 From Coq Require Import String Permutation.
 From Verif Require Import Prelude GFM GFP PolyP RSP TabGF GFSpec C17P TabSync ConcM ConcP PurityM PurityP.
+From Verif Require Import TabCode39 TabCode93 Code39M Code93M Code39Spec Code93Spec Code39P Code93P.
 Import List ListNotations.
 
 (* Structural facts of the current source (gosync): no package-level variable is
@@ -11,8 +12,12 @@ Import List ListNotations.
    and no exported function writes into a slice-typed parameter. *)
 Theorem C15_structural_facts :
   facts_good facts_from_source = true
-  /\ retains_from_source = false /\ writes_params_from_source = false.
-Proof. split; [exact facts_from_source_good|exact source_does_not_retain]. Qed.
+  /\ retains_from_source = false /\ writes_params_from_source = false
+  /\ appends_only_internal = true.
+Proof.
+  split; [exact facts_from_source_good|]. destruct source_does_not_retain as [A B].
+  split; [exact A|]. split; [exact B|exact source_appends_only_internal].
+Qed.
 Print Assumptions C15_structural_facts.
 
 (* History freedom.  The library as a state machine over the two shared generator
@@ -64,6 +69,16 @@ Theorem C15_map_search_order_independent : forall tbl tbl' v,
   NoDup (map snd tbl) -> Permutation tbl tbl' -> find_by_value tbl' v = find_by_value tbl v.
 Proof. exact find_by_value_order_independent. Qed.
 Print Assumptions C15_map_search_order_independent.
+
+(* ... and on the tables generated from the current source no two keys carry the same
+   value, so both getChecksum searches are deterministic whatever order Go picks *)
+Theorem C15_checksum_searches_deterministic :
+  (forall tbl v, Permutation code39_encode_table tbl ->
+     c39_find_value tbl v = c39_find_value code39_encode_table v)
+  /\ (forall tbl v, Permutation code93_encode_table tbl ->
+     c93_find_value tbl v = c93_find_value code93_encode_table v).
+Proof. exact (conj c39_value_search_order_independent c93_value_search_order_independent). Qed.
+Print Assumptions C15_checksum_searches_deterministic.
 
 Example C15_nonvacuous_history :
   let fq := field_of_dump gfdump_qr in
